@@ -373,7 +373,7 @@ def build_case(ch: Chooser, fam: str, rank: int, N: int, tier: str) -> Optional[
         for comb in itertools.combinations(range(len(others)), r):
             subsets.append(comb)
     sub = ch.pick("outs", subsets)
-    annot = ch.pick("annot", ANNOT)
+    annot = ch.pick("annot", ANNOT if tier == "thorough" else ANNOT[:3])
     outs = [others[j] for j in sub] + [last]
     return {"g": g, "outs": outs, "annot": annot,
             "text": f"{fam}{rank}|" + ";".join(g.desc) + "|outs=" + ",".join(v["name"] for v in outs) + f"|{annot}"}
@@ -601,12 +601,38 @@ def job_corpus(p: Dict[str, Any]) -> Dict[str, Any]:
             out["diff"] = f"after pass {name}: model {s1}: {str(res)[:150]}"
             out["pass"] = name
             break
-        bad = G.same_arrays(base, res)
+        bad = _close_arrays(base, res)
         if bad:
             out["diff"] = f"after pass {name}: {bad}"
             out["pass"] = name
             break
     return out
+
+
+def _close_arrays(a, b) -> Optional[str]:
+    """Corpus graphs carry arbitrary float data: a rewrite may legitimately change the summation order of a reduction
+    (ReduceMean over re-mapped axes), so floats are compared to 1e-5 relative to the tensor scale; everything else
+    (count, order, dtype, shape, integers, booleans) exactly."""
+    if len(a) != len(b):
+        return f"output count {len(a)} != {len(b)}"
+    for i, (x, y) in enumerate(zip(a, b)):
+        x, y = np.asarray(x), np.asarray(y)
+        if x.dtype != y.dtype:
+            return f"output {i} dtype {x.dtype} != {y.dtype}"
+        if x.shape != y.shape:
+            return f"output {i} shape {x.shape} != {y.shape}"
+        if x.dtype.kind in "fc":
+            fx, fy = np.isfinite(x), np.isfinite(y)
+            if not np.array_equal(fx, fy):
+                return f"output {i}: finiteness differs"
+            if fx.any():
+                scale = max(float(np.max(np.abs(x[fx]))), 1e-30)
+                err = float(np.max(np.abs(x[fx].astype(np.float64) - y[fx].astype(np.float64))))
+                if err > 1e-5 * scale:
+                    return f"output {i}: max abs difference {err:.3e} at scale {scale:.3g}"
+        elif not np.array_equal(x, y):
+            return f"output {i} values differ: {x.reshape(-1)[:6]} vs {y.reshape(-1)[:6]}"
+    return None
 
 
 def _plan(fam: str, rank: int, N: int, tier: str, depth: int) -> List[List[int]]:
@@ -677,7 +703,8 @@ def main(tier: str) -> int:
         if tier == "quick":
             sd = seed()
             pids = [q for q in pids if (int(hashlib.sha256(q.encode()).hexdigest()[:6], 16) + sd) % 4 == 0]
-            run.cap("quick: a seed-rotated quarter of the corpus is pushed through the pipeline pass by pass (all in thorough)")
+            run.cap("quick: annotation modes concrete / one symbol / all-symbolic (absent annotations only in thorough)")
+        run.cap("quick: a seed-rotated quarter of the corpus is pushed through the pipeline pass by pass (all in thorough)")
         cstats = {"corpus_programs": 0, "corpus_pass_applications_changing_graph": 0}
         for _i, p, r in pool.imap("checks.c02", "job_corpus", [{"pid": q} for q in pids]):
             if is_worker_failure(r):
